@@ -34,9 +34,14 @@ def run(C, R):
             constructor_state(R, C.engine(cfg), C.facts(cfg), _st, {'value': 'none', 'is_fulfilled': ('const', 0), 'waiters': 'empty-queue'}, 'C12.R0')
         from common import wrapper_discipline
         R.floor('C12.W wrapper-paths[%s]' % cfg, wrapper_discipline(C, R, cfg, list(STATES), 'C12.W'), 2)
+        from common import slot_discipline
         for st, mode in STATES.items():
             F.adt(st)
             mod = st.rsplit('::', 1)[0] + '::'
+            # R6: over every transition (state methods and functions that reach into the state): the slot is assigned
+            # only by send and emptied only towards the caller (broadcast: never emptied)
+            R.floor('C12.R6 slot-accesses[%s] %s' % (cfg, st),
+                    slot_discipline(R, E, F, CG, st, 'C12.R6', may_take=(mode == 'take')), 1)
             # R1 who may write the slot
             nw = 0
             for fn, s in scan_field_writes(F, 'value', mod):
